@@ -85,6 +85,7 @@ def run(ctx):
     sc.correspondence(ctx, recs, "cmp_pruned", "c03")
     sc.padding_check(ctx, recs, ("pruned",), 40 if ctx.quick else 400, "c03")
     sc.loglevel_check(ctx, recs, ("pruned",), 25 if ctx.quick else 250, "c03")
+    sc.optimize_check(ctx, recs, ("pruned",), 25 if ctx.quick else 250, "c03")
     sc.resolve_check(ctx, recs, ("pruned",), 30 if ctx.quick else 300, "c03")
     check(ctx, recs)
     for r in recs:
